@@ -142,17 +142,22 @@ def build():
     STEP[5] = ("name-order", {"C02": "*", "C07": "*", "C08": "*"})
     STEP[6] = ("malformed-token-any-scan", {"C08": "*", "C02": "*"})
     STEP[7] = ("lookup-skip-then-overshoot", {"C16": "*", "C07": "*", "C06": "*"})
-    STEP[8] = ("field-lookup-one-field", {"C07": "*", "C01": "*"})
-    STEP_DEFS = {4: ["VC_STEP_MAXBUF=300"], 8: ["VC_STEP_MAXBUF=24"]}
+    STEP[8] = ("field-lookup-one-field", {"C07": "*"})      # names of 0..2 bytes, boolean value, ~5 min: quick for C07 only
+    STEP_DEFS = {4: ["VC_STEP_MAXBUF=300"], 8: ["VC_STEP_MAXBUF=12"]}
     # (the same step with max_depth 255 / symbolic and a state array of exactly that size does not fit in memory: the
     #  limit of the 8-bit depth counter at max_depth = 255 is NOT covered; max_depth in {1,2,3} is)
     for sc, (nm, pr) in STEP.items():
         J.append(Job("E2/step/" + nm, "E3", "contracts/h_step.c", "h_step", pr, defs=["VC_SCEN=%d" % sc] + STEP_DEFS.get(sc, []),
-                     tier="thorough" if sc == 8 else "quick",    # scenario 8 (real lookup loop) takes 10-18 min
+                     tier="quick",
                      cbmc_args=["--unwind", "9", "--unwindset", "_advance_parsing.0:%d,binson_parser_field_with_length.0:3" % (5 if sc == 7 else 3), "--unwinding-assertions", "--slice-formula"], timeout=1800, mem_gb=16 if sc == 8 else 8,
                      note="real _advance_parsing from a symbolic pre-state of one shape; the token loop provably runs <= 2 (scenario 7: 4) iterations (unwinding assertion), so this is COMPLETE for that shape; tokens within the first 64 bytes behind the cursor"))
 
     also_thorough("E2/step/next-scalar", {"C10": "*", "C06": "*"})
+    also_thorough("E2/step/field-lookup-one-field", {"C01": "*", "C08": "*"})
+    J.append(Job("E2/step/field-lookup-one-field/names<=4", "E3", "contracts/h_step.c", "h_step", {"C07": "*", "C01": "*"},
+                 defs=["VC_SCEN=8", "VC_STEP_MAXBUF=24", "VC_STEP8_NAME=4"], tier="thorough",
+                 cbmc_args=["--unwind", "9", "--unwindset", "_advance_parsing.0:3,binson_parser_field_with_length.0:3", "--unwinding-assertions", "--slice-formula"],
+                 timeout=5400, mem_gb=16, note="as field-lookup-one-field with names of 0..4 bytes (10-18 min)"))
 
     # ---- round-trip lemmas on the real encoder/decoder pair (complete: loops bounded by operand width)
     for nm in ("parse_pack", "pack_parse", "double"):
